@@ -84,6 +84,15 @@ def run(ctx):
                 if d_.k == "call" and d_.a[0].endswith("Config::is_phonetic"):
                     pol_ = p_
                     sel_roots.add(repr(apath(peel_conv(d_.a[1][0]))[0]))
+                elif d_.k == "discr" and strip_refs(d_.a[0]).k == "call" and strip_refs(d_.a[0]).a[0].startswith("config::Config::") \
+                        and _two_variant_enum(prog, (prog.fns.get(strip_refs(d_.a[0]).a[0]) or {}).get("output")):
+                    # the kind of layout as a private two-variant enum (`match config.layout_kind() { Phonetic => .., Fixed => .. }`): the variant
+                    # taken names the side, whatever the enum is called — creation and replacement must take the same side to the same method
+                    if p_ == "otherwise":
+                        listed_ = [v_ for v_, _ in body.blocks[s_]["term"]["targets"]]
+                        p_ = tuple(v_ for v_ in (0, 1) if v_ not in listed_)
+                    pol_ = ("variant",) + tuple(p_) if isinstance(p_, tuple) else p_
+                    sel_roots.add(repr(apath(peel_conv(strip_refs(d_.a[0]).a[1][0]))[0]))
                 else:
                     extras.append((d_, p_))
             summ.add((struct_ctors[n_], pol_))
@@ -547,3 +556,8 @@ def run(ctx):
                 r5.violation("removed-file", "when the user auto-correct file cannot be opened update-engine keeps the old entries; a newly created context has none",
                              site_of(ub, opens[0]))
     r5.floor(4, "gate-compare, changed-file, removed-state, removed-file")
+
+
+def _two_variant_enum(prog, ty):
+    a = prog.adts.get(ty or "")
+    return bool(a) and a.get("kind") == "enum" and len(a["variants"]) == 2 and not any(v["fields"] for v in a["variants"])
